@@ -18,11 +18,10 @@ func init() {
 		}
 		now := env.e.regArr(env.st, s.Reg, "", es)
 		was := env.e.regArr(env.old, s.Reg, "", es)
-		lo, hi := env.idx64(n.Args[1]), env.idx64(n.Args[2])
-		return env.rangeForall(func(k T) T {
-			i := BVBin("bvadd", s.Base, k)
-			return Eq(Select(now, i), Select(was, i))
-		}, lo, hi, func(k T) T { return Select(now, BVBin("bvadd", s.Base, k)) })
+		lo, hi := BVBin("bvadd", s.Base, env.idx64(n.Args[1])), BVBin("bvadd", s.Base, env.idx64(n.Args[2]))
+		return env.rangeForall(func(j T) T {
+			return Eq(Select(now, j), Select(was, j))
+		}, lo, hi, func(j T) T { return Select(now, j) })
 	}
 	// unchanged_outside(s, lo, hi): every element of the region of s outside s[lo:hi) is as in the old state
 	specFuncs["unchanged_outside"] = func(env *Env, n *ECall) Value {
@@ -50,6 +49,40 @@ func init() {
 		env.e.nbound++
 		k := Sym("k!u"+itoa(env.e.nbound), BV64)
 		return VBool{Forall([]T{k}, body(k), Select(now, k))}
+	}
+}
+
+func init() {
+	// av(x): the value held by an atomic.Value field declared with `atomic`
+	specFuncs["av"] = func(env *Env, n *ECall) Value {
+		if len(n.Args) != 1 {
+			env.fail("av expects 1 argument")
+		}
+		v := env.eval(n.Args[0])
+		if vi, ok := v.(VIface); ok && vi.Dyn != nil {
+			return vi.Val
+		}
+		env.fail("av: not a declared atomic value (%T)", v)
+		return nil
+	}
+}
+
+func init() {
+	// sameslice(a, b): same backing region, base, len and cap
+	specFuncs["sameslice"] = func(env *Env, n *ECall) Value {
+		if len(n.Args) != 2 {
+			env.fail("sameslice expects 2 arguments")
+		}
+		a, b := env.sliceArg(n.Args[0]), env.sliceArg(n.Args[1])
+		if a.Reg != b.Reg {
+			if !env.pos {
+				// region identity is decided at the Go level; as an assumption a
+				// negative answer may be an artefact of havoc, so assume nothing
+				return VBool{env.e.fresh("sameslice?", BoolSort)}
+			}
+			return VBool{False}
+		}
+		return VBool{And(Eq(a.Base, b.Base), Eq(a.Len, b.Len), Eq(a.Cap, b.Cap))}
 	}
 }
 
